@@ -400,6 +400,10 @@ class BehavioralRTLIRTypeCheckVisitorL1( bir.BehavioralRTLIRNodeVisitor ):
           node._is_explicit = False if isinstance(node._value, int) else True
       else:
         node._is_explicit = True
+        # The type of the elements carries the object of the FIRST element.
+        # With a variable index the result is not that particular element.
+        if idx is None and isinstance( node.Type, rt.Const ):
+          node.Type.obj = None
 
     elif isinstance( node.value.Type, rt.Signal ):
       dtype = node.value.Type.get_dtype()
